@@ -236,9 +236,9 @@ Section Accepted.
           /\ (i_is_cp ci = false ->
                 i_wmt ci = Some (match setting (c_name c) with Some v => v | None => false end)
                 /\ (forall b v, In b (c_bases c) -> setting b = Some v -> setting (c_name c) = Some v)
-                /\ (forall v, c_wmt c = Some v -> setting (c_name c) = Some v)
+                /\ (forall v, decl_wmt c = Some v -> setting (c_name c) = Some v)
                 /\ (forall v, setting (c_name c) = Some v ->
-                      c_wmt c = Some v \/ exists b, In b (c_bases c) /\ setting b = Some v)).
+                      decl_wmt c = Some v \/ exists b, In b (c_bases c) /\ setting b = Some v)).
   Proof. intros m r H. eapply model_type_consistent_e2e; [exact H | eapply accepted_wf; exact H]. Qed.
 
   (** The type order of an accepted meta-model is a topological permutation. *)
@@ -486,7 +486,7 @@ Section SerClosed.
   Variable anc : amap.
   Hypothesis Hwf : wf prims m.
   Variable order : list name.
-  Variable smap : list (name * option bool).
+  Variable smap : list (name * option (option bool)).
   Hypothesis Et : topo_sort prims m = Ok order.
   Hypothesis Hs : stack_serializations prims m anc order = (smap, false).
 
@@ -503,7 +503,7 @@ Section SerClosed.
   Qed.
 
   Lemma sv_cp : forall c, In c m -> is_cp prims m anc (c_name c) = true ->
-    sv smap (c_name c) = c_wmt c.
+    sv smap (c_name c) = decl_wmt c.
   Proof.
     intros c Hc Hcp. destruct Hwf as [Hnd _]. unfold sv.
     assert (E : lookup (c_name c) smap = Some (c_wmt c)).
@@ -512,7 +512,7 @@ Section SerClosed.
                     (c_name c) (fun _ => Hcp)) as H.
       rewrite Hs in H. cbn [fst] in H. rewrite H.
       apply (lookup_init _ (fun x => c_wmt x)); assumption. }
-    rewrite E. destruct (c_wmt c); reflexivity.
+    unfold decl_wmt. rewrite E. destruct (c_wmt c) as [[w|]|]; reflexivity.
   Qed.
 
   Notation reachs := (reach prims m (is_cp prims m anc)).
@@ -521,13 +521,13 @@ Section SerClosed.
       a class it reaches through its bases declares [v]. *)
   Theorem model_type_closed_thm : forall c, In c m -> forall v,
     sv smap (c_name c) = Some v <->
-    exists a, In a m /\ reachs (c_name c) (c_name a) /\ c_wmt a = Some v.
+    exists a, In a m /\ reachs (c_name c) (c_name a) /\ decl_wmt a = Some v.
   Proof.
     pose proof Hwf as [Hnd [Hbases [rank Hrank]]].
     intros c Hc v. split.
     - assert (Hgen : forall k c0, In c0 m -> rank (c_name c0) < k ->
                 sv smap (c_name c0) = Some v ->
-                exists a, In a m /\ reachs (c_name c0) (c_name a) /\ c_wmt a = Some v).
+                exists a, In a m /\ reachs (c_name c0) (c_name a) /\ decl_wmt a = Some v).
       { induction k as [|k IH]; intros c0 Hc0 Hk Hv; [lia|].
         destruct (is_cp prims m anc (c_name c0)) eqn:Ecp.
         - rewrite (sv_cp c0 Hc0 Ecp) in Hv. exists c0. split; [exact Hc0|].
@@ -577,7 +577,7 @@ Theorem model_type_closed_acc : forall prims m r, translate prims m = Ok r ->
       exists ci, class_ir r (c_name c) = Some ci /\ skipped (c_name c) = i_is_cp ci
         /\ (i_is_cp ci = false ->
               (i_wmt ci = Some true <->
-               exists a, In a m /\ reach prims m skipped (c_name c) (c_name a) /\ c_wmt a = Some true)).
+               exists a, In a m /\ reach prims m skipped (c_name c) (c_name a) /\ decl_wmt a = Some true)).
 Proof.
   intros prims m r H. pose proof (accepted_wf prims m r H) as Hwf. pose proof Hwf as [Hnd _].
   destruct (translate_inv prims m r H)
@@ -586,5 +586,5 @@ Proof.
   { unfold class_ir. cbn [r_classes]. apply find_map_name; [intro x; reflexivity | exact Hnd | exact Hc]. }
   cbn [ir_of i_wmt i_is_cp]. split; [reflexivity|]. intro Hcp. rewrite Hcp.
   rewrite <- (model_type_closed_thm prims m anc Hwf order smap Et Hs c Hc true).
-  unfold final_wmt, sv. destruct (lookup (c_name c) smap) as [[[|]|]|]; split; congruence.
+  unfold final_wmt, sv. destruct (lookup (c_name c) smap) as [[[[|]|]|]|]; split; congruence.
 Qed.
